@@ -247,7 +247,7 @@ def subscribe_action(an: Analysis, cls_qn: str, order: str):
             elif event.kind == 'call' and isinstance(event.node, ast.Call) and \
                     isinstance(event.node.func, ast.Attribute) and \
                     event.node.func.attr == 'append' and \
-                    ast.unparse(event.node.func.value) == 'self._waiting':
+                    rules.text_at(path, event, event.node.func.value) == 'self._waiting':
                 parked = True
                 parked_where = event.recv
         if immediate and not parked:
@@ -339,7 +339,7 @@ def run(check, an: Analysis):
         undated = any(tested(e, ('isnone', 'delay'), True) for e in path.events) and \
             any(tested(e, ('isnone', 'at'), True) for e in path.events)
         appends = [e for e in path.events if e.kind == 'call' and isinstance(
-            e.node, ast.Call) and ast.unparse(e.node.func) == 'self._pending.append']
+            e.node, ast.Call) and rules.text_at(path, e, e.node.func) == 'self._pending.append']
         pushes = [e for e in path.events if is_call_to(e, 'push')]
         if undated:
             check.instance('L4', 'schedule:undated->pending', len(appends) == 1 and
@@ -516,7 +516,7 @@ def _check_waitqueues(check, an: Analysis):
             continue
         created = any(e.kind == 'handler' and e['exc'] == 'ext:KeyError' for e in path.events)
         pushed = any(e.kind == 'call' and isinstance(e.node, ast.Call) and
-                     ast.unparse(e.node.func) == 'heappush' for e in path.events)
+                     rules.text_at(path, e, e.node.func) == 'heappush' for e in path.events)
         appended = sum(1 for e in path.events if e.kind == 'call' and isinstance(
             e.node, ast.Call) and isinstance(e.node.func, ast.Attribute)
             and e.node.func.attr == 'append')
